@@ -183,6 +183,17 @@ class Gen:
                 seen[m2] = (c2, p2)
                 ops.append(f"save_message {m2} 1 0 9 {c2} {p2} 1 8 0 {r.choice(WRAPS)} 1 1")
                 ops.append(f"upd_last 1 {c2} {p2} {m2}")
+        if r.random() < 0.5:
+            # what mdk-core does around a commit race: snapshot, more messages filed under the next epoch (each with its
+            # pointer update), rollback, invalidation of everything filed after the snapshot's epoch — the restored
+            # pointer must again designate the head of the messages that are still valid
+            ops.append("snap_create 1 1 2000")
+            later = [m for m in MIDS if m not in seen][:r.randint(1, 3)]
+            for mid in later:
+                c, pr = r.choice(TS), r.choice(TS)
+                ops.append(f"save_message {mid} 1 0 9 {c} {pr} 1 8 0 {r.choice(WRAPS)} 2 1")
+                ops.append(f"upd_last 1 {c} {pr} {mid}")
+            ops += ["snap_rollback 1 1", "inval_msgs 1 1"]
         ops += ["messages 1 10000 0 0", "find_group 1"]
         return ops
 
@@ -277,6 +288,8 @@ def correspondence(cases):
 # ---- parsing canonical observations ---------------------------------------------------------
 
 MSG_RE = re.compile(r"m\(([^)]*)\)")
+INVALIDATED = 3      # harness code of MessageState::EpochInvalidated
+
 def parse_msgs(s):
     res = []
     for m in MSG_RE.finditer(s):
@@ -347,10 +360,10 @@ def oracle_c18(cases):
                     exp = "none" if not F else "some:" + F[0]
                     if out != exp:
                         fail(c, k, "last-not-head", f"last_message={out[:120]} but head of listing={exp[:120]}")
-            elif t[0] == "find_group" and k > 0 and c["ops"][k - 1].startswith("messages 1 10000 0 0") and c["ops"][0].endswith("- - - 0 0 0") and all(x.split()[0] in ("save_group", "save_message", "upd_last", "messages", "find_group") for x in c["ops"]):
-                # tracked case: pointer must designate the head of the default order
+            elif t[0] == "find_group" and k > 0 and c["ops"][k - 1].startswith("messages 1 10000 0 0") and c["ops"][0].endswith("- - - 0 0 0") and all(x.split()[0] in ("save_group", "save_message", "upd_last", "messages", "find_group", "snap_create", "snap_rollback", "inval_msgs") for x in c["ops"]):
+                # tracked case: pointer must designate the head of the default order among the messages that are not invalidated
                 g = parse_group(out)
-                F = parse_msgs(c["impl"][k - 1])
+                F = [m for m in parse_msgs(c["impl"][k - 1]) if m["state"] != INVALIDATED]
                 stats["tracked"] += 1
                 if F and g and (g["lastAt"], g["lastProc"], g["lastId"]) != (F[0]["created"], F[0]["processed"], F[0]["id"]):
                     fail(c, k, "pointer-not-head", f"pointer {(g['lastAt'], g['lastProc'], g['lastId'])} != head {(F[0]['created'], F[0]['processed'], F[0]['id'])}")
